@@ -22,7 +22,7 @@ def run(b, ps, tier, seed):
     violations, known, cov = L.run_property(b, PROP, tier, seed, L.c05_targeted(), "linoracle", ok)
     return {"violations": violations, "known": [], "coverage": cov,
             "assumptions": ["the theorem is about the Gallina model Tc.v/TcTop.v; it speaks about /repo through the verdict correspondence run on every check",
-                            "premise uninit_prog of the theorems holds of parser output: evaluated on every parsed program of the run (flag uninit= of the oracle line), not proved",
+                            "premise uninit_prog of the AST-level theorems is proved of parser output (C05_parsed_uninit); the oracle line still carries the flag uninit= as a cross-check of the extracted parser",
                             "the oracle is the extraction of linear_program_b / drop_split_program_b, proved to decide LinearProgram (C05_oracle_exact) and never to flag a program the model accepts (C05_oracle_agrees, C05_oracle_modes_agrees)"],
             "trusted_extra": ["correspondence: probe tc (links /repo, -tags verif) vs extracted model on the same texts; extraction: ExtrOcamlBasic, ExtrOcamlString",
                               "oracle: coq/extract/Extract_lin.v + drv_lin.ml (linoracle)"]}
